@@ -6,16 +6,29 @@ CONC_REASONS = {"41": "memory store: no sequential ordering of the lock-delimite
                 "71": "exported totals differ from a recount at quiescence", "72": "memory store: a shard's counters differ from a recount at an instant a reader can observe",
                 "73": "a total is negative"}
 PROP = {
+    "parts": [{"name": "stress", "driver_prop": "STRESS", "glue": "GE", "chk": "chkE04", "explain": "explainE", "prelude": "From Chihaya Require Import Glue.G06 Glue.G10.",
+               "n": {"quick": 100, "thorough": 1500}, "reasons": {"1": "panic", "2": "number of responses differs from what the request calls for", "4": "error/connect response bytes differ from what THIS request calls for", "5": "response bytes differ from the BEP 15 encoding of the answer to THIS request", "12": "scrape counts differ"},
+               "gotags": ["shim_udp", "shim_http"]},
+              {"name": "race", "driver_prop": "RACE", "glue": "GE", "chk": "chkE04", "explain": "explainE", "prelude": "From Chihaya Require Import Glue.G06 Glue.G10.",
+               "n": {"quick": 40, "thorough": 400}, "reasons": {}, "gotags": ["shim_udp", "shim_http"], "goflags": ["-race"], "env": {"GORACE": "halt_on_error=1 exitcode=66"}}],
     "glue": "G04", "chk": "chk04", "explain": "explain04", "prelude": "From Chihaya Require Import Model.Tracker.\nOpen Scope Z_scope.",
     "gotags": CONC_TAGS, "mutex_rewrite": True,
     "n": {"quick": 100, "thorough": 4000},
-    "rule": "placeholder",
+    "rule": "cases = (1) schedule-forced runs: pairs and triples of store steps on one swarm (same peer, other peers, other swarm: put/delete/graduate/scrape/selection/announce through the logic) and expiry passes concurrent with them, on the memory store (1 and 2 shards; the interleaving of the lock-delimited steps is chosen by a cooperative scheduler through a rewritten mutex) and on the Redis store (2 instances; the interleaving of the round-trips is chosen through wrapped connections); per scenario every non-preemptive schedule, every schedule with one preemption (thorough: two) and random schedules; (2) stress: 48 concurrent UDP clients against a real frontend (sockets, pooled buffers and generators), every response judged against the model's answer for ITS request; (3) the same workloads and 8-goroutine store hammering under the Go race detector. Non-trivial = at least two threads; distinct = distinct (scenario, schedule).",
     "tags": {"2/3": "memory, 2/3 threads", "52/53": "memory with an expiry pass", "102/103": "redis, 2/3 threads", "152": "redis with an expiry pass"},
     "trivial_tags": [], "min_tags": 4, "reasons": CONC_REASONS,
-    "assumptions": [],
-    "explanation": "placeholder",
+    "assumptions": ["a lock-delimited critical section executes atomically (Go runtime / memory model; checked by the race detector part, not proved)", "miniredis executes commands one at a time like Redis", "yield points: before every lock acquisition and after every release (memory), before every round-trip (Redis)"],
+    "explanation": "The property's clause is decided directly: for every forced schedule the step results and the final state observed on the REAL store must equal those of SOME sequential ordering of the steps (program order kept) under the PROVED sequential specification (searched exhaustively inside Coq); for Redis the final membership and totals of some sequential ordering of the whole operations; per-shard counters must equal a recount at every instant no writer holds the shard; expiry steps may be skipped only for swarms created after the pass began. Theorems (Proofs/ConcP.v, see Properties/C04.v) cover the interleaving machines: mutual exclusion and step linearizability for the lock protocol, Redis quiescent equivalence (counter round-trips commute), and kernel-checked schedules refuting the Redis expiry races (F10, F11).",
 }
 
 def conc_part(chk, quick, thorough):
     return {"name": "conc", "driver_prop": "CONC", "glue": "G04", "chk": chk, "explain": "explain04", "prelude": "From Chihaya Require Import Model.Tracker.\nOpen Scope Z_scope.",
             "n": {"quick": quick, "thorough": thorough}, "reasons": CONC_REASONS, "gotags": CONC_TAGS}
+
+CLAIM = {
+    "text": PROP["explanation"],
+    "design_ref": "DESIGN.md section 8, C04",
+    "note": "PARTIAL: atomicity of a critical section, absence of data races and buffer aliasing are facts about the Go runtime and memory model; they are TESTED (systematic but bounded schedule exploration, stress, race detector), not proved. "
+            "Known finding F10 (Redis expiry vs re-announce). Trusted: Coq kernel+vm_compute, Glue/G04.v and GE.v, the cooperative scheduler and the mutex rewrite (sync.RWMutex -> verifRWMutex in a build-time copy of peer_store.go), wrapped redigo connections, miniredis.",
+    "technique": "Coq-decided linearizability against the proved sequential specification over schedule-forced executions + interleaving-machine theorems + race detector",
+}
